@@ -203,13 +203,27 @@ func Start(w *World, snap Snapshot) *Env {
 	return e
 }
 
-// InitialSnapshot is the persisted state a fresh scenario starts from.
+// InitialSnapshot is the persisted state a fresh scenario starts from. Without stored common
+// state (NoState) `Has` is false and State is what the client will take over from the server (its
+// state after Log[:Pre]): the position its view of the common sequences starts at.
 func (w *World) InitialSnapshot() Snapshot {
 	c := map[int64]int{}
 	for k, v := range w.C0 {
 		if !w.Fresh[k] {
 			c[k] = v
 		}
+	}
+	if w.NoState {
+		p, q := w.P0, w.Q0
+		for _, e := range w.Log[:w.Pre] {
+			switch e.Seq() {
+			case "pts":
+				p = e.Pos
+			case "qts":
+				q = e.Pos
+			}
+		}
+		return Snapshot{State: updates.State{Pts: p, Qts: q, Date: Date0, Seq: 0}, Has: false, Chans: c}
 	}
 	return Snapshot{State: updates.State{Pts: w.P0, Qts: w.Q0, Date: Date0, Seq: 0}, Has: true, Chans: c}
 }
@@ -296,6 +310,13 @@ func (e *Env) mainBarrier() bool {
 func (e *Env) chanBarrier(c int64) bool {
 	if e.Dead[c] || e.W.removed(c) {
 		return true
+	}
+	e.W.mu.Lock()
+	before, sub := e.W.subscribing[c]
+	delete(e.W.subscribing, c)
+	e.W.mu.Unlock()
+	if sub {
+		e.waitExtrasServed("c"+strconv.FormatInt(c, 10), before)
 	}
 	for attempt := 0; attempt < 3; attempt++ {
 		deadline := time.Now().Add(10 * time.Second)
